@@ -77,6 +77,13 @@ func (rn *runner) do(o op, tag string) outcome {
 			panic(err)
 		}
 	}
+	// a share of the generated messages spell their address fields in upper case
+	if tag[:3] == "gen" && (o.Kind == kClaim || o.Kind == kDelegate || o.Kind == kUndelegate) && o.V >= 0 && rn.r.Chance(1, 14) {
+		o.Up = 1 + rn.r.Intn(7)
+	}
+	if o.Up != 0 {
+		rn.st.Count("upper-case-address")
+	}
 	pre := w.dump(h.Ctx())
 	now := h.Time.Add(o.Dt).UnixNano()
 	out := w.apply(o)
@@ -282,6 +289,12 @@ func (rn *runner) corpus() {
 	}
 	rn.do(op{Kind: kUndelegate, U: 0, V: 2, Amt: bi(600_000), Rcp: -3}, "corpus:overdraw")
 	rn.do(op{Kind: kBlock, Dt: 1300 * ms}, "corpus:overdraw")
+	// address strings in upper case decode to the same accounts: they must address the same share
+	// class (one denom, one supply, one set of multipliers per validator)
+	rn.do(op{Kind: kDelegate, U: 1, V: 0, Amt: bi(3_000_000), Up: 1}, "corpus:upper-case")
+	rn.do(op{Kind: kClaim, U: 1, V: 0, Up: 3}, "corpus:upper-case")
+	rn.do(op{Kind: kUndelegate, U: 1, V: 0, Amt: bi(2_000_000), Rcp: 3, Up: 7}, "corpus:upper-case")
+	rn.do(op{Kind: kBlock, Dt: 1300 * ms}, "corpus:upper-case")
 }
 
 // corpusZeroSaver: a delegator joins (or returns) while the reward saver holds exactly nothing of
